@@ -53,7 +53,7 @@ def targets():
     ]
 
 
-STAGES = [['C12_math.v', 'C12_lists_thm.v'], ['C12_gen.v', 'C12_lists_R.v'], ['C12.v']]
+STAGES = [['C12_math.v', 'C12_lists_thm.v'], ['C12_gen.v'], ['C12_lists_R.v'], ['C12.v']]
 
 
 # ------------------------------------------------------------------------------------------
@@ -127,8 +127,21 @@ def endpoint_pairs(rng, n):
     return out
 
 
+def exact_pairs():
+    """exactly representable endpoint pairs: equal, exactly antipodal, exactly orthogonal, dot exactly at +-0.9995
+    (np.dot of these is exact), integer-valued ones also usable as int arrays / Python lists"""
+    s = math.sqrt(1 - THR * THR)
+    return [('exact-equal', [0, 0, 1, 0], [0, 0, 1, 0]), ('exact-antipodal', [1, 0, 0, 0], [-1, 0, 0, 0]),
+            ('exact-antipodal', [0, 0, 0, -1], [0, 0, 0, 1]), ('exact-orthogonal', [1, 0, 0, 0], [0, 1, 0, 0]),
+            ('exact-orthogonal', [0, -1, 0, 0], [0, 0, 0, 1]), ('exact-thr', [1, 0, 0, 0], [THR, s, 0, 0]),
+            ('exact-thr-neg', [1, 0, 0, 0], [-THR, 0, s, 0]), ('exact-thr', [0, 0, 1, 0], [0, s, THR, 0]),
+            ('exact-3-4-5', [0.6, 0.8, 0, 0], [-0.6, 0, 0.8, 0]), ('exact-3-4-5', [0.6, 0, 0, 0.8], [0.8, 0, 0, 0.6]),
+            ('exact-half', [0.5, 0.5, 0.5, 0.5], [0.5, -0.5, 0.5, -0.5]), ('exact-half', [0.5, 0.5, 0.5, 0.5], [-0.5, -0.5, -0.5, 0.5])]
+
+
 def weight_vectors(rng, n):
-    out = [[0.0, 1.0], [0.0, 0.25, 0.5, 0.75, 1.0], [1e-9, 1 - 1e-9], [0.5], [1.0], [0.0]]
+    out = [[0.0, 1.0], [0.0, 0.25, 0.5, 0.75, 1.0], [1e-9, 1 - 1e-9], [0.5], [1.0], [0.0], [0.0, 0.5, 1.0],
+           [0.1, 0.2, 0.3, 0.4], [0.0, 0.125, 0.25, 0.5, 0.75, 0.875, 1.0]]      # N = 1, 2, 3, 4, 5, 7
     while len(out) < n:
         k = int(rng.integers(1, 7))
         out.append(sorted(float(x) for x in rng.uniform(0, 1, k)))
@@ -392,6 +405,15 @@ def o_slerp(inp):
     entry = inp.get('entry', 'quaternion')
     f = I[entry]
     p, q, t = np.array(inp['p'], float), np.array(inp['q'], float), np.array(inp['t'], float)
+    form = inp.get('form', 'float64')
+    if form != 'float64':
+        # the same numbers handed over as Python lists / integer arrays / float32 arrays (exactly representable inputs only)
+        conv = {'list': lambda v: [float(x) for x in v], 'intlist': lambda v: [int(x) for x in v],
+                'int': lambda v: np.array(v).astype(int), 'float32': lambda v: np.array(v, dtype=np.float32)}[form]
+        g = I[entry]
+        raw = {'quaternion': __import__('ahrs').common.quaternion.slerp, 'orientation': __import__('ahrs').common.orientation.slerp}[entry]
+        f = lambda pp, qq, tt: raw(conv(pp), conv(qq), tt.tolist() if form in ('list', 'intlist') else tt)
+        entry = f'{entry}[{form}]'
     d = float(np.dot(p, q))
     flip = d < 0.0
     qn = -q if flip else q                       # the nearer antipode of q (q itself when d = 0)
@@ -430,10 +452,16 @@ def o_slerp(inp):
         if cm.maxabs(R3, -R) > TOL:
             return {**tag('antipode-p'), 'observed': R3, 'expected': -R}
     # the two copies agree
-    other = I['orientation' if entry == 'quaternion' else 'quaternion']
+    other = I['quaternion' if entry.startswith('orientation') else 'orientation']
     R4 = np.asarray(other(p.copy(), q.copy(), t.copy()), float)
     if cm.maxabs(R4, R) > 1e-15:
         return {**tag('copies-differ'), 'observed': R4, 'expected': R}
+    # a second call with the very same argument arrays gives the same rows
+    pa, qa, ta = p.copy(), q.copy(), t.copy()
+    A1 = np.array(f(pa, qa, ta), float)
+    A2 = np.array(f(pa, qa, ta), float)
+    if cm.maxabs(A1, R) > 0 or cm.maxabs(A2, R) > TOL:
+        return {**tag('second-call-differs'), 'observed': A2, 'expected': R}
     return None
 
 
@@ -486,6 +514,10 @@ def o_remove_jumps(inp):
                 continue
             if np.linalg.norm(out[i] - out[i - 1]) > 1:
                 return {'tag': f'{entry}/jump-remains', 'observed': [i, out[i - 1], out[i]]}
+        if entry == 'remove_jumps' and not any(r is None for r in rows):
+            Qa.remove_jumps()           # second call on the same object: nothing left to flip
+            if not _bits_equal(np.array(Qa.array), out):
+                return {'tag': f'{entry}/second-call-changes-rows', 'observed': np.array(Qa.array), 'expected': out}
     return None
 
 
@@ -531,6 +563,13 @@ def o_slerp_nan(inp):
             e = I['quaternion'](a, b, [np.linspace(0, 1, L + 2)[k]])[0]
             if _ulps(ri, e) > 64:
                 return {'tag': f'slerp_nan/{region}/fill-differs-from-slerp', 'observed': ri, 'expected': e}
+    # second call on the same object: nothing is left to fill (the zero-run case), and the rows stay
+    if inplace:
+        r2 = call_outcome(lambda: Qa.slerp_nan(inplace=False))
+        if r2[0] == 'raise':
+            return {'tag': f'slerp_nan/{region}/second-call-raises-{r2[1]}', 'observed': list(r2[1:])}
+        if cm.maxabs(np.abs(np.asarray(r2[1], float)), np.abs(res)) > 0:       # up to the row signs of a renewed jump removal
+            return {'tag': f'slerp_nan/{region}/second-call-differs', 'observed': r2[1], 'expected': res}
     return None
 
 
@@ -576,6 +615,16 @@ def search(ctx, scale):
             inp = {'entry': entry, 'p': p.tolist(), 'q': q.tolist(), 't': wvs[(i + (entry == 'orientation')) % len(wvs)], 'region': region}
             ctx.check('slerp', inp, _call(o_slerp, inp, entry),
                       nontrivial_key=(entry, region, tuple(np.round(p, 6)), tuple(np.round(q, 6))) if region != 'equal' else None)
+    for i, (region, p, q) in enumerate(exact_pairs()):
+        ints = all(float(v).is_integer() for v in p + q)
+        forms = ['float64', 'list'] + (['int', 'intlist', 'float32'] if ints else [])
+        for form in forms:
+            for entry in ('quaternion', 'orientation'):
+                if entry == 'orientation' and form != 'float64':
+                    continue        # the second copy only accepts float arrays (it flips its argument in place: C19)
+                for tv in (wvs[i % len(wvs)], wvs[(i + 3) % len(wvs)]):
+                    inp = {'entry': entry, 'p': [float(v) for v in p], 'q': [float(v) for v in q], 't': tv, 'region': region, 'form': form}
+                    ctx.check('slerp', inp, _call(o_slerp, inp, entry), nontrivial_key=(entry, form, region, i, len(tv)))
     for i, (_, q) in enumerate(cm.quats(rng, 40 * scale)):
         if q[0] <= -1 + 1e-6:
             continue
@@ -604,8 +653,11 @@ def search(ctx, scale):
         rj = [p.tolist()] + [None] * L + [q.tolist()]
         inp = {'rows': rj, 'inplace': False}
         ctx.check('slerp_nan', inp, _call(o_slerp_nan, inp, 'slerp_nan'), nontrivial_key=('sn-pair', region, L, tuple(np.round(q, 6))))
+    for N in (1, 2, 3, 4, 5, 7):       # particular lengths, no NaN: the zero-run case of "valid rows unchanged"
+        inp = {'rows': _rows_json(smooth_rows(rng, N), [False] * N), 'inplace': bool(N % 2)}
+        ctx.check('slerp_nan', inp, _call(o_slerp_nan, inp, 'slerp_nan'), nontrivial_key=None)
     for j in range(40 * scale):
-        N = int(rng.integers(2, 30))
+        N = (1, 2, 3, 4, 5, 7)[j] if j < 6 else int(rng.integers(2, 30))
         rows = smooth_rows(rng, N, step=0.4)
         s, nj = 1.0, 0
         for i in range(N):
